@@ -656,6 +656,7 @@ structure QInv (s : SState) : Prop where
 theorem wfp_pos : 0 < Gen.WRITE_LOG_FLUSH_POINT := by decide
 theorem wfp_lt_size : Gen.WRITE_LOG_FLUSH_POINT < Gen.WRITE_LOG_SIZE := by decide
 theorem rfp_pos : 0 < Gen.READ_LOG_FLUSH_POINT := by decide
+theorem rfp_lt_size : Gen.READ_LOG_FLUSH_POINT < Gen.READ_LOG_SIZE := by decide
 
 theorem qinv_init : QInv ({} : SState) :=
   ⟨rfl, Nat.zero_le _, Nat.zero_le _⟩
@@ -732,6 +733,15 @@ theorem scheduleWriteOp_spec (p : Params) (fuel : Nat) {s0 s : SState} (h : QInv
   show ((housekeepW p s).writeQ ++ [op]).length ≤ _
   rw [List.length_append]
   exact hlt
+
+/-- Under the invariant, `record_read_op` never drops the read operation. -/
+theorem recordReadOp_enqueues (p : Params) {s : SState} (h : QInv s) (op : ROp) :
+    recordReadOp p s op = { housekeepR p s with readQ := (housekeepR p s).readQ ++ [op] } := by
+  have hk := (housekeepR_spec p h).2.1
+  show (if (housekeepR p s).readQ.length < Gen.READ_LOG_SIZE
+      then { housekeepR p s with readQ := (housekeepR p s).readQ ++ [op] }
+      else housekeepR p s) = _
+  rw [if_pos (Nat.lt_trans hk rfp_lt_size)]
 
 theorem recordReadOp_spec (p : Params) {s : SState} (h : QInv s) (op : ROp) :
     QInv (recordReadOp p s op) ∧
@@ -852,6 +862,17 @@ theorem step_panic (p : Params) (s : SState) (op : Op) (f : Fault)
     refine panic_aux _ ?_ f h
     intro g
     cases op <;> intro hg <;> cases hg
+
+/-- A `snap` observation is the snapshot of the (unchanged) state. -/
+theorem step_snap (p : Params) (s : SState) (op : Op) (sn : Snap)
+    (h : (step p s op).2 = Obs.snap sn) : sn = snapshot p s := by
+  unfold step at h
+  by_cases hs : s.fault.isSome = true
+  · rw [if_pos hs] at h; cases h
+  · rw [if_neg hs] at h
+    dsimp only at h
+    cases op <;> dsimp only at h <;> split at h <;> cases h
+    rfl
 
 /-- The state after a history. -/
 def stateAfter (p : Params) : SState → List Op → SState
